@@ -222,3 +222,39 @@ Qed.
 
 Lemma leaf_view_same S p k c t x : leaf x = true -> viewk S p k c t x = view S t x.
 Proof. intros Hl. destruct x; try discriminate Hl; reflexivity. Qed.
+
+(* ---------- names for arg_free ---------- *)
+Section AFNames.
+  Variable S : schema.
+  Definition af_elems (et : ty) : list tval -> bool :=
+    fix go (l : list tval) : bool := match l with [] => true | x :: r => arg_free S et x && go r end.
+  Definition af_pairs (kt vt : ty) : list (tval * tval) -> bool :=
+    fix go (l : list (tval * tval)) : bool :=
+      match l with [] => true | (a, b) :: r => arg_free S kt a && arg_free S vt b && go r end.
+  Definition af_field (dfs : list field) (id : Z) (x : tval) : bool :=
+    match match_field S dfs O (Some id) (ttype_of x) with Some (_, f) => arg_free S (f_ty f) x | None => true end.
+  Definition af_fields (dfs : list field) : list (Z * tval) -> bool :=
+    fix go (fs : list (Z * tval)) : bool := match fs with [] => true | (id, x) :: r => af_field dfs id x && go r end.
+  Definition af_variant (vs : list (Z * ty)) (id : Z) (x : tval) : bool :=
+    match variant_by_id S vs id with Some vt => arg_free S vt x | None => true end.
+  Definition af_variants (vs : list (Z * ty)) : list (Z * tval) -> bool :=
+    fix go (fs : list (Z * tval)) : bool := match fs with [] => true | (id, x) :: r => af_variant vs id x && go r end.
+
+  Lemma af_list t a l : arg_free S t (VList a l) = match resolve S t with TyList et => af_elems et l | _ => true end.
+  Proof. reflexivity. Qed.
+  Lemma af_set t a l : arg_free S t (VSet a l) = match resolve S t with TySet et => af_elems et l | _ => true end.
+  Proof. reflexivity. Qed.
+  Lemma af_map t ka va l : arg_free S t (VMap ka va l) = match resolve S t with TyMap kt vt => af_pairs kt vt l | _ => true end.
+  Proof. reflexivity. Qed.
+  Lemma af_struct t fs : arg_free S t (VStruct fs) =
+    match resolve S t with
+    | TyRef n =>
+        match lookup S n with
+        | Some (DStruct dfs keep ia) => negb (keep && ia) && af_fields dfs fs
+        | Some (DUnion vs _ _) => af_variants vs fs
+        | _ => true
+        end
+    | _ => true
+    end.
+  Proof. reflexivity. Qed.
+End AFNames.
